@@ -18,10 +18,11 @@ def jobs(tier):
           J("ascii", 7, ".ascii", {"ZTERM": 0}), J("asciiz", 7, ".asciiz", {"ZTERM": 1}), J("db_string", 7, ".db", {"ZTERM": 0}),
           J("org_overlap", 8),
           J("avr8.dw", 2, ".dw", cpu="avr8", bpa=2), J("avr8.resb", 5, ".resb", {"RESSIZE": 1}, cpu="avr8", bpa=2),
-          J("avr8.db", 1, ".db", cpu="avr8", bpa=2)]
+          J("avr8.db", 1, ".db", cpu="avr8", bpa=2),
+          J("propeller.resb", 5, ".resb", {"RESSIZE": 1}, cpu="propeller", bpa=4), J("ebpf.resb", 5, ".resb", {"RESSIZE": 1}, cpu="ebpf", bpa=8),
+          J("pic14.resw", 5, ".resw", {"RESSIZE": 2}, cpu="pic14", bpa=2)]
     if tier == "thorough":
-        js += [J("propeller.dc32", 3, ".dc32", cpu="propeller", bpa=4), J("propeller.resb", 5, ".resb", {"RESSIZE": 1}, cpu="propeller", bpa=4),
-               J("ebpf.dc64", 4, ".dc64", cpu="ebpf", bpa=8), J("pic14.dw", 2, ".dw", cpu="pic14", bpa=2), J("z80.db", 1, ".db", cpu="z80"),
+        js += [J("propeller.dc32", 3, ".dc32", cpu="propeller", bpa=4), J("ebpf.dc64", 4, ".dc64", cpu="ebpf", bpa=8), J("pic14.dw", 2, ".dw", cpu="pic14", bpa=2), J("z80.db", 1, ".db", cpu="z80"),
                J("6502.dw", 2, ".dw", cpu="6502")]
     return js
 
